@@ -146,7 +146,7 @@ HOMOG = {
     "rfft": [(0, 1)], "irfft": [(0, 1)], "rfft2": [(0, 1)], "irfft2": [(0, 1)],
     "fftshift": [(0, 1)], "ifftshift": [(0, 1)], "T": [(0, 1)],
     "flatten": [(0, 1)], "reshape": [(0, 1)], "copy": [(0, 1)], "array": [(0, 1)],
-    "dot": [(0, 1), (1, 1)], "loopsum": [(0, 1)], "userfft": [(0, 1)],
+    "dot": [(0, 1), (1, 1)], "loopsum": [(0, 1)], "loopstore": [(0, 1)], "loopfinal": [(0, 1)], "userfft": [(0, 1)],
     "maximum": [(0, 1), (1, 1)],   # special: all args same degree (handled below)
     "flipud": [(0, 1)], "fliplr": [(0, 1)], "astype": [(0, 1)], "append": [(0, 1), (1, 1)],
     "setitem": [(0, 1), (2, 1)],
